@@ -87,6 +87,7 @@ func c17Huge(c *hx.Ctx, r *hx.RNG) {
 func c17Case(c *hx.Ctx, r *hx.RNG, idx int64) {
 	if idx%4000000 == 17 {
 		c17Huge(c, r)
+		releaseHuge()
 		return
 	}
 	switch k := r.Intn(100); {
